@@ -38,8 +38,8 @@ Proof. vm_compute. reflexivity. Qed.
 
 (* "f0 00" and "f0 01 18" are rejected *)
 Lemma prefix_auth_rejects_short :
-  auth_decode_prefix (fresh_packet 5 (mkfh 0 AUTH 0 false false)) [] = Err EReasonCode /\
-  auth_decode_prefix (fresh_packet 5 (mkfh 1 AUTH 0 false false)) [24] = Err EProperties.
+  auth_decode_prefix (fresh_packet 5 (mkfh 0 AUTH 0 false false)) [] = Err EOffsetByteOutOfRange /\
+  auth_decode_prefix (fresh_packet 5 (mkfh 1 AUTH 0 false false)) [24] = Err EEOF.
 Proof. split; vm_compute; reflexivity. Qed.
 
 Lemma fixed_auth_accepts_short :
